@@ -145,7 +145,10 @@ class SO2(SMPose):
         if isinstance(S, (list, tuple)):
             return cls([tr.trexp2(s, check=check) for s in S])
         else:
-            return cls(tr.trexp2(S, check=check), check=False)
+            R = tr.trexp2(S, check=check)
+            if R.shape != (2, 2):
+                raise ValueError('expecting an so(2) element')
+            return cls(R, check=False)
 
     @staticmethod
     def isvalid(x, check=True):
@@ -393,7 +396,10 @@ class SE2(SO2):
         if isinstance(S, (list, tuple)) and not argcheck.isvector(S, 3):
             return cls([tr.trexp2(s) for s in S])
         else:
-            return cls(tr.trexp2(S), check=False)
+            T = tr.trexp2(S)
+            if T.shape != (3, 3):
+                raise ValueError('expecting an se(2) element')
+            return cls(T, check=False)
 
     @staticmethod
     def isvalid(x, check=True):
